@@ -48,6 +48,9 @@ Leaves(T) == {r \in Ids(T) : Kd(T, r) # "copy" /\ Users(T, r) = {}}
 Pipes(T) == {r \in Ids(T) : Kd(T, r) = "pipe"}
 Roots(T) == {r \in Ids(T) : Kd(T, r) \in {"pipe", "array"}}
 
+\* A copy node may carry idx = k > 0: its source reader was read k times BEFORE Copy was called ("read k items, then Copy"); the
+\* calls of that pre-reader are ordinary recv events at the source reader's node id.
+DropN(s, k) == IF k >= Len(s) THEN <<>> ELSE SubSeq(s, k + 1, Len(s))
 \* readerTypeArray: arrays, copies of arrays, merges of arrays only
 RECURSIVE ArrLike(_, _)
 ArrLike(T, r) == IF Kd(T, r) = "array" THEN TRUE
@@ -58,7 +61,7 @@ RECURSIVE ArrItems(_, _)
 RECURSIVE CatArr(_, _, _)
 CatArr(T, ss, i) == IF i > Len(ss) THEN <<>> ELSE (IF ArrLike(T, ss[i]) THEN ArrItems(T, ss[i]) ELSE <<>>) \o CatArr(T, ss, i + 1)
 ArrItems(T, r) == IF Kd(T, r) = "array" THEN T[r].items
-                  ELSE IF Kd(T, r) = "child" THEN ArrItems(T, Src1(T, Src1(T, r)))
+                  ELSE IF Kd(T, r) = "child" THEN DropN(ArrItems(T, Src1(T, Src1(T, r))), T[Src1(T, r)].idx)   \* arr, index of the source at Copy time
                   ELSE CatArr(T, Src(T, r), 1)
 
 \* a merge used as a source of another merge is flattened into it (sr.msr.sts...)
@@ -203,6 +206,7 @@ ViewOf(T, q, i, base) ==
                       ELSE IF Head(s) > 0 THEN (IF Skips(T, r, Head(s)) THEN F(Tail(s)) ELSE <<ConvMap(Head(s))>> \o F(Tail(s)))
                       ELSE <<Head(s)>> \o F(Tail(s))
           IN ViewOf(T, q, i - 1, F(base))
+       ELSE IF Kd(T, r) = "copy" THEN ViewOf(T, q, i - 1, DropN(base, T[r].idx))      \* what the pre-reader took is not delivered again
        ELSE ViewOf(T, q, i - 1, base)
 RootSeq(G, T, p, complete) == IF Kd(T, p) = "array" THEN T[p].items ELSE IF complete THEN G.ok[p] ELSE G.off[p]
 Views(G, T, r, complete) == [q \in PathsFrom(T, r) |-> ViewOf(T, q, Len(q) - 1, RootSeq(G, T, q[Len(q)], complete))]
